@@ -245,3 +245,16 @@ CASES += [
     {"name": "tensor form computed from the raw operator storage (seeded change of round 8)", "kind": "mutant", "rule": "C02-S", "edits": [
         (_RDT, "            RR = self._convert_operators_2_tensor(self.Km, self.Lm, self.Ld)", "            RR = self._convert_operators_2_tensor(self._Km, self._Lm, self._Ld)", 1)]},
 ]
+
+_SBI9 = "quantarhei/qm/liouvillespace/systembathinteraction.py"
+_SBI9_OLD = "        self.KK = numpy.zeros((self.N, dim, dim), dtype=REAL)\n        self.KK[0,:,:] = numpy.real(KK.data)       \n"
+CASES += [
+    {"name": "the array of system-bath operators takes the element type of the first operator (seeded change of round 9)", "kind": "mutant",
+     "rule": "C02-T", "edits": [(_SBI9, _SBI9_OLD,
+        "        ktype = numpy.asarray(KK.data).dtype\n        self.KK = numpy.zeros((self.N, dim, dim), dtype=ktype)\n        self.KK[0,:,:] = KK.data\n", 1)]},
+    {"name": "the array of system-bath operators is allocated with the dtype attribute of the first operator's data", "kind": "mutant",
+     "rule": "C02-T", "edits": [(_SBI9, _SBI9_OLD,
+        "        self.KK = numpy.zeros((self.N, dim, dim), dtype=KK.data.dtype)\n        self.KK[0,:,:] = KK.data\n", 1)]},
+    {"name": "the array of system-bath operators is allocated with numpy.float64", "kind": "twin", "edits": [(_SBI9, _SBI9_OLD,
+        "        self.KK = numpy.zeros((self.N, dim, dim), dtype=numpy.float64)\n        self.KK[0,:,:] = numpy.real(KK.data)       \n", 1)]},
+]
